@@ -2,7 +2,8 @@ import SaModel.Lemmas.C01CompDefs
 import SaModel.Lemmas.C01DefaultAt
 /-
 Completeness, non-recursive operations: `serialize_default` (k placeholders) and `serialize_none` succeed on every
-builder whose schema supports them, and leave the head room unchanged.
+builder whose schema supports them, at the cost of at most one unit of head room per call (none unless a union
+receives the default: one row of its first real variant, repo fix fe68100).
 -/
 namespace SaModel.Build
 open SaModel SaModel.Spec
@@ -114,129 +115,187 @@ theorem Shape_placeholder {b : B} {dt : DataType} {n : Bool} {md : Metadata} (h 
     obtain ⟨ufs, mode, rfl, _⟩ := h
     rfl
 
+/-- an unchanged head room, in the two forms the default lemmas return -/
+theorem room_both {r r' k : Nat} {P : Prop} (h : r' = r) : r ≤ r' + k ∧ (P → r' = r) := ⟨by omega, fun _ => h⟩
+
+theorem room_le1 {r r' : Nat} (h : r' = r) : r ≤ r' + 1 := by omega
+
+/-- the first real variant has a row counter -/
+theorem firstReal?_cur {fs : BL} {cur : List Int} {j : Nat} (hw : WFU fs cur) (hj : firstReal? fs = some j) :
+    ∃ cj, cur[j]? = some cj := by
+  obtain ⟨c, m, hg, _⟩ := firstReal?_get fs j hj
+  exact ⟨_, (WFU_get fs cur j _ hw hg).1⟩
+
+/-- the union step of `k` defaults, given the children -/
+theorem pushDefaultK_union_ok {p : String} {c : B} {m : FieldMeta} {rest : BL} {types offs cur : List Int} {k j : Nat}
+    {fs' : BL} {cj : Int} (hj : firstReal? (.cons c m rest) = some j) (hj127 : j ≤ 127) (hcj : cur[j]? = some cj)
+    (hat : pushDefaultKAt (.cons c m rest) j k = .ok fs') (hk : k ≤ curRoom cur) :
+    pushDefaultK (.union p (.cons c m rest) types offs cur) k = .ok (.union p fs' (types ++ List.replicate k (j : Int))
+      (offs ++ (List.range k).map (fun (i : Nat) => cj + (i : Int))) (cur.set j (cj + k))) := by
+  have hfr : firstReal (.cons c m rest) = j := by simp only [firstReal, hj, Option.getD_some]
+  have hgd : cur.getD j 0 = cj := by simp only [List.getD_eq_getElem?_getD, hcj, Option.getD_some]
+  have h1 : ¬ (k ≠ 0 ∧ cj + 1 > 2147483647) := by
+    intro ⟨hk0, h⟩
+    exact curRoom_pos_get hcj (by omega) h
+  have h2 : ¬ (k ≠ 0 ∧ j > 127) := by omega
+  have h3 : ¬ (k ≠ 0 ∧ cj + (k : Int) > 2147483647) := by
+    intro ⟨hk0, h⟩
+    exact curRoom_le_get hcj hk hk0 h
+  rw [pushDefaultK]
+  simp only [ctx_ok, hfr, hgd, if_neg h1, if_neg h2]
+  exact (bind_ok _ _ _).2 ⟨_, hat, by simp only [if_neg h3]; rfl⟩
+
 mutual
+/-- `k` defaults succeed on a builder whose type supports them and cost at most `k` units of head room — none when no
+union receives them (`noDefU`); otherwise the `k` rows must fit (`k ≤ room b`) -/
 theorem pushDefaultK_total : ∀ (b : B) (k : Nat) (dt : DataType) (n : Bool) (md : Metadata), WFB b → Shape b dt n md →
-    defOK dt md = true → ∃ b', pushDefaultK b k = .ok b' ∧ room b' = room b
-  | .null p len, k, _, _, _, _, _, _ => ⟨_, rfl, rfl⟩
-  | .unknownVariant p, k, dt, n, md, _, hs, hd => by
+    defOK dt md = true → (noDefU dt = false → k ≤ room b) →
+    ∃ b', pushDefaultK b k = .ok b' ∧ room b ≤ room b' + k ∧ (noDefU dt = true → room b' = room b)
+  | .null p len, k, _, _, _, _, _, _, _ => ⟨_, rfl, room_both rfl⟩
+  | .unknownVariant p, k, dt, n, md, _, hs, hd, _ => by
     simp only [Shape] at hs
     obtain ⟨rfl, hu⟩ := hs
     simp [defOK, hu] at hd
-  | .leaf p kd v vals, k, _, _, _, _, _, _ => by
+  | .leaf p kd v vals, k, _, _, _, _, _, _, _ => by
     obtain ⟨v', vals', h⟩ := pushDefaultK_leaf p kd v vals k
-    exact ⟨_, h, rfl⟩
-  | .bytes p ty v offs data, k, _, _, _, hwf, _, _ => by
+    exact ⟨_, h, room_both rfl⟩
+  | .bytes p ty v offs data, k, _, _, _, hwf, _, _, _ => by
     simp only [WFB] at hwf
     obtain ⟨v', offs', h, _, hl⟩ := iter_dup_total k v offs hwf.1.ne_nil
-    refine ⟨.bytes p ty v' offs' data, ?_, by simp only [room, hl]⟩
+    refine ⟨.bytes p ty v' offs' data, ?_, room_both (by simp only [room, hl])⟩
     simp only [pushDefaultK, ctx_ok]
     exact (bind_ok _ _ _).2 ⟨(v', offs'), h, rfl⟩
-  | .bytesView p ty v views buf, k, _, _, _, _, _, _ => by
+  | .bytesView p ty v views buf, k, _, _, _, _, _, _, _ => by
     obtain ⟨⟨v', views'⟩, h⟩ := iter_pure_total (fun (s : Validity × List Nat) => (setValidityDefault s.1 s.2.length, s.2 ++ [packInline []])) k (v, views)
-    refine ⟨.bytesView p ty v' views' buf, ?_, rfl⟩
+    refine ⟨.bytesView p ty v' views' buf, ?_, room_both rfl⟩
     simp only [pushDefaultK, h, bind, Except.bind]; rfl
-  | .fixedSizeBinary p m len v buf cur, k, _, _, _, _, _, _ => by
+  | .fixedSizeBinary p m len v buf cur, k, _, _, _, _, _, _, _ => by
     obtain ⟨⟨len', v', buf'⟩, h⟩ := iter_pure_total (fun (s : Nat × Validity × Bytes) =>
       (s.1 + 1, setValidityDefault s.2.1 s.1, s.2.2 ++ List.replicate m 0)) k (len, v, buf)
-    refine ⟨.fixedSizeBinary p m len' v' buf' cur, ?_, rfl⟩
+    refine ⟨.fixedSizeBinary p m len' v' buf' cur, ?_, room_both rfl⟩
     simp only [pushDefaultK, h, bind, Except.bind]; rfl
-  | .list p large fm v offs el, k, _, _, _, hwf, _, _ => by
+  | .list p large fm v offs el, k, _, _, _, hwf, _, _, _ => by
     simp only [WFB] at hwf
     obtain ⟨v', offs', h, _, hl⟩ := iter_dup_total k v offs hwf.1.ne_nil
-    refine ⟨.list p large fm v' offs' el, ?_, by simp only [room, hl]⟩
+    refine ⟨.list p large fm v' offs' el, ?_, room_both (by simp only [room, hl])⟩
     simp only [pushDefaultK, ctx_ok]
     exact (bind_ok _ _ _).2 ⟨(v', offs'), h, rfl⟩
-  | .fixedSizeList p fm m len v cur el, k, dt, n, md, hwf, hs, hd => by
+  | .fixedSizeList p fm m len v cur el, k, dt, n, md, hwf, hs, hd, hk => by
     simp only [WFB] at hwf
     simp only [Shape] at hs
     obtain ⟨_, cname, cdt, cn, cmd, rfl, hsel⟩ := hs
-    simp only [defOK, defOKF] at hd
-    obtain ⟨el', hel, hr⟩ := pushDefaultK_total el (k * m) cdt cn cmd hwf.2.2 hsel hd
+    simp only [defOK, defOKF, noDefUF, Bool.and_eq_true, Bool.or_eq_true, decide_eq_true_eq] at hd
+    simp only [noDefU, noDefUF, room] at hk
     obtain ⟨⟨len', v'⟩, h⟩ := iter_pure_total (fun (s : Nat × Validity) => (s.1 + 1, setValidityDefault s.2 s.1)) k (len, v)
-    refine ⟨.fixedSizeList p fm m len' v' cur el', ?_, by simp only [room, hr]⟩
-    simp only [pushDefaultK, ctx_ok, h, hel, bind, Except.bind]; rfl
-  | .map p mm v offs ks vs, k, _, _, _, hwf, _, _ => by
+    cases hnd : noDefU cdt with
+    | true =>
+      obtain ⟨el', hel, _, hr⟩ := pushDefaultK_total el (k * m) cdt cn cmd hwf.2.2 hsel hd.1
+        (fun h => by rw [hnd] at h; cases h)
+      have hr := hr hnd
+      refine ⟨.fixedSizeList p fm m len' v' cur el', ?_, room_both (by simp only [room, hr])⟩
+      simp only [pushDefaultK, ctx_ok, h, hel, bind, Except.bind]; rfl
+    | false =>
+      -- a union below receives the defaults: the list has at most one element per row
+      have hm : m ≤ 1 := by
+        rcases hd.2 with h' | h'
+        · omega
+        · rw [hnd] at h'; cases h'
+      have hkm : k * m ≤ k := by
+        calc k * m ≤ k * 1 := Nat.mul_le_mul_left k hm
+          _ = k := Nat.mul_one k
+      have hk' := hk hnd
+      obtain ⟨el', hel, hr, _⟩ := pushDefaultK_total el (k * m) cdt cn cmd hwf.2.2 hsel hd.1 (fun _ => by omega)
+      refine ⟨.fixedSizeList p fm m len' v' cur el', ?_, by simp only [room]; omega,
+        fun h' => by simp only [noDefU, noDefUF, hnd] at h'; cases h'⟩
+      simp only [pushDefaultK, ctx_ok, h, hel, bind, Except.bind]; rfl
+  | .map p mm v offs ks vs, k, _, _, _, hwf, _, _, _ => by
     simp only [WFB] at hwf
     obtain ⟨v', offs', h, _, hl⟩ := iter_dup_total k v offs hwf.1.ne_nil
-    refine ⟨.map p mm v' offs' ks vs, ?_, by simp only [room, hl]⟩
+    refine ⟨.map p mm v' offs' ks vs, ?_, room_both (by simp only [room, hl])⟩
     simp only [pushDefaultK, ctx_ok]
     exact (bind_ok _ _ _).2 ⟨(v', offs'), h, rfl⟩
-  | .struct p len v fs cached next seen, k, dt, n, md, hwf, hs, hd => by
+  | .struct p len v fs cached next seen, k, dt, n, md, hwf, hs, hd, hk => by
     simp only [WFB] at hwf
     simp only [Shape] at hs
     obtain ⟨_, sfs, rfl, hsl⟩ := hs
     simp only [defOK] at hd
-    obtain ⟨fs', hfs, hr⟩ := pushDefaultKAll_total fs k sfs len hwf.2.1 hsl hd
+    simp only [noDefU, room] at hk
+    obtain ⟨fs', hfs, hr, hr'⟩ := pushDefaultKAll_total fs k sfs len hwf.2.1 hsl hd hk
     obtain ⟨⟨len', v'⟩, h⟩ := iter_pure_total (fun (s : Nat × Validity) => (s.1 + 1, setValidityDefault s.2 s.1)) k (len, v)
-    refine ⟨.struct p len' v' fs' cached next seen, ?_, by simp only [room, hr]⟩
+    refine ⟨.struct p len' v' fs' cached next seen, ?_, by simp only [room]; exact hr, by simp only [room, noDefU]; exact hr'⟩
     simp only [pushDefaultK, ctx_ok, h, hfs, bind, Except.bind]; rfl
-  | .dictionary p idx vals index, k, dt, n, md, _, hs, _ => by
+  | .dictionary p idx vals index, k, dt, n, md, _, hs, _, _ => by
     simp only [Shape] at hs
     obtain ⟨_, hil, _, _⟩ := hs
     obtain ⟨p', t, v, vals', rfl⟩ := isIntLeaf_form hil
     obtain ⟨v', vals'', h⟩ := pushDefaultK_leaf p' (.int t) v vals' k
-    refine ⟨.dictionary p (.leaf p' (.int t) v' vals'') vals index, ?_, by simp only [room, keyRoom]⟩
+    refine ⟨.dictionary p (.leaf p' (.int t) v' vals'') vals index, ?_, room_both (by simp only [room, keyRoom])⟩
     rw [pushDefaultK]
     simp only [ctx_ok]
     exact (bind_ok _ _ _).2 ⟨_, h, rfl⟩
-  | .union p .nil types offs cur, k, dt, n, md, _, hs, hd => by
+  | .union p .nil types offs cur, k, dt, n, md, _, hs, hd, _ => by
     simp only [Shape] at hs
     obtain ⟨ufs, mode, rfl, hsu⟩ := hs
     cases ufs with
     | nil => simp [defOK, defOKFirst] at hd
     | cons _ _ _ => simp [ShapeU] at hsu
-  | .union p (.cons c m rest) types offs cur, k, dt, n, md, hwf, hs, hd => by
+  | .union p (.cons c m rest) types offs cur, k, dt, n, md, hwf, hs, hd, hk => by
     simp only [WFB] at hwf
     simp only [Shape] at hs
     obtain ⟨ufs, mode, rfl, hsu⟩ := hs
     simp only [defOK, Bool.and_eq_true, decide_eq_true_eq] at hd
-    obtain ⟨j, fs', hj, hat, hroom⟩ := pushDefaultK_total_first (.cons c m rest) k ufs 0 cur hwf.2.2.1 hsu hd.2
-    have hfr : firstReal (.cons c m rest) = j := by simp only [firstReal, hj, Option.getD_some]
-    have hj127 : ¬ (k ≠ 0 ∧ j > 127) := by
+    have hk := hk rfl
+    simp only [room] at hk
+    obtain ⟨j, fs', hj, hat, hroom⟩ := pushDefaultK_total_first (.cons c m rest) k ufs 0 cur hwf.2.2.1 hsu hd.2 (by omega)
+    have hj127 : j ≤ 127 := by
       obtain ⟨cj, mj, hg, _⟩ := firstReal?_get _ j hj
       have h1 := BL.get?_lt _ _ _ hg
       have h2 := ShapeU_length _ _ _ hsu
       omega
-    refine ⟨.union p fs' (types ++ List.replicate k (j : Int))
-      (offs ++ (List.range k).map (fun (i : Nat) => cur.getD j 0 + (i : Int))) (cur.set j (cur.getD j 0 + k)), ?_, ?_⟩
-    · rw [pushDefaultK]
-      simp only [ctx_ok, hfr, if_neg hj127]
-      exact (bind_ok _ _ _).2 ⟨_, hat, rfl⟩
-    · simp only [room, hroom]
+    obtain ⟨cj, hcj⟩ := firstReal?_cur hwf.2.2.1 hj
+    refine ⟨_, pushDefaultK_union_ok hj hj127 hcj hat (by omega), ?_, fun h => by simp [noDefU] at h⟩
+    have := curRoom_setK cur j cj k hcj
+    simp only [room]
+    omega
 theorem pushDefaultKAll_total : ∀ (fs : BL) (k : Nat) (sfs : Fields) (len : Nat), WFL fs len → ShapeL fs sfs →
-    defOKFs sfs = true → ∃ fs', pushDefaultKAll fs k = .ok fs' ∧ roomL fs' = roomL fs
-  | .nil, _, _, _, _, _, _ => ⟨.nil, rfl, rfl⟩
-  | .cons b m r, k, .cons (.mk fname fdt fn fmd) rest, len, hwf, hs, hd => by
+    defOKFs sfs = true → (noDefUFs sfs = false → k ≤ roomL fs) →
+    ∃ fs', pushDefaultKAll fs k = .ok fs' ∧ roomL fs ≤ roomL fs' + k ∧ (noDefUFs sfs = true → roomL fs' = roomL fs)
+  | .nil, _, _, _, _, _, _, _ => ⟨.nil, rfl, room_both rfl⟩
+  | .cons b m r, k, .cons (.mk fname fdt fn fmd) rest, len, hwf, hs, hd, hk => by
     simp only [WFL] at hwf
     simp only [ShapeL] at hs
     simp only [defOKFs, defOKF, Bool.and_eq_true] at hd
-    obtain ⟨b', hb, hr⟩ := pushDefaultK_total b k fdt fn fmd hwf.1 hs.2.2.1 hd.1
-    obtain ⟨r', hrest, hr'⟩ := pushDefaultKAll_total r k rest len hwf.2.2 hs.2.2.2 hd.2
-    refine ⟨.cons b' m r', ?_, by simp only [roomL, hr, hr']⟩
-    simp only [pushDefaultKAll, hb, hrest, bind, Except.bind]; rfl
-  | .cons _ _ _, _, .nil, _, _, hs, _ => by simp [ShapeL] at hs
+    simp only [noDefUFs, noDefUF, roomL, Bool.and_eq_false_iff] at hk
+    obtain ⟨b', hb, hr, hre⟩ := pushDefaultK_total b k fdt fn fmd hwf.1 hs.2.2.1 hd.1 (fun h => by have := hk (.inl h); omega)
+    obtain ⟨r', hrest, hr', hre'⟩ := pushDefaultKAll_total r k rest len hwf.2.2 hs.2.2.2 hd.2 (fun h => by have := hk (.inr h); omega)
+    refine ⟨.cons b' m r', ?_, by simp only [roomL]; omega, fun h => ?_⟩
+    · simp only [pushDefaultKAll, hb, hrest, bind, Except.bind]; rfl
+    · simp only [noDefUFs, noDefUF, Bool.and_eq_true] at h
+      simp only [roomL, hre h.1, hre' h.2]
+  | .cons _ _ _, _, .nil, _, _, hs, _, _ => by simp [ShapeL] at hs
 /-- the union step: some variant is not a placeholder, and `k` placeholders go into the first such -/
 theorem pushDefaultK_total_first : ∀ (fs : BL) (k : Nat) (ufs : UFields) (i : Nat) (cur : List Int), WFU fs cur →
-    ShapeU fs ufs i → defOKFirst ufs = true →
-    ∃ j fs', firstReal? fs = some j ∧ pushDefaultKAt fs j k = .ok fs' ∧ roomL fs' = roomL fs
-  | .nil, _, .nil, _, _, _, _, hd => by simp [defOKFirst] at hd
-  | .nil, _, .cons _ _ _, _, _, _, hs, _ => by simp [ShapeU] at hs
-  | .cons _ _ _, _, .nil, _, _, _, hs, _ => by simp [ShapeU] at hs
-  | .cons b m r, k, .cons tid (.mk fname fdt fn fmd) rest, i, cur, hwf, hs, hd => by
+    ShapeU fs ufs i → defOKFirst ufs = true → k ≤ roomL fs →
+    ∃ j fs', firstReal? fs = some j ∧ pushDefaultKAt fs j k = .ok fs' ∧ roomL fs ≤ roomL fs' + k
+  | .nil, _, .nil, _, _, _, _, hd, _ => by simp [defOKFirst] at hd
+  | .nil, _, .cons _ _ _, _, _, _, hs, _, _ => by simp [ShapeU] at hs
+  | .cons _ _ _, _, .nil, _, _, _, hs, _, _ => by simp [ShapeU] at hs
+  | .cons b m r, k, .cons tid (.mk fname fdt fn fmd) rest, i, cur, hwf, hs, hd, hk => by
     simp only [WFU] at hwf
     simp only [ShapeU] at hs
+    simp only [roomL] at hk
     have hp := Shape_placeholder hs.2.1
     simp only [defOKFirst, isPlaceholderF, ← hp] at hd
     cases hb : b.isPlaceholder with
     | true =>
       rw [hb] at hd; simp only [if_true] at hd
-      obtain ⟨j, r', hj, hr, hroom⟩ := pushDefaultK_total_first r k rest (i + 1) cur.tail hwf.2.2 hs.2.2 hd
-      refine ⟨j + 1, .cons b m r', by simp [firstReal?, hb, hj], ?_, by simp only [roomL, hroom]⟩
+      obtain ⟨j, r', hj, hr, hroom⟩ := pushDefaultK_total_first r k rest (i + 1) cur.tail hwf.2.2 hs.2.2 hd (by omega)
+      refine ⟨j + 1, .cons b m r', by simp [firstReal?, hb, hj], ?_, by simp only [roomL]; omega⟩
       simp only [pushDefaultKAt, hr, bind, Except.bind]; rfl
     | false =>
       rw [hb] at hd; simp only [Bool.false_eq_true, if_false, defOKF] at hd
-      obtain ⟨b', hb', hr⟩ := pushDefaultK_total b k fdt fn fmd hwf.1 hs.2.1 hd
-      refine ⟨0, .cons b' m r, by simp [firstReal?, hb], ?_, by simp only [roomL, hr]⟩
+      obtain ⟨b', hb', hr, _⟩ := pushDefaultK_total b k fdt fn fmd hwf.1 hs.2.1 hd (fun _ => by omega)
+      refine ⟨0, .cons b' m r, by simp [firstReal?, hb], ?_, by simp only [roomL]; omega⟩
       simp only [pushDefaultKAt, hb', bind, Except.bind]; rfl
 end
 
@@ -262,72 +321,86 @@ theorem kindOf_ne_null {dt : DataType} {k : LeafKind} (h : kindOf dt = some k) :
   intro hd; subst hd; simp [kindOf] at h
 
 theorem pushNone_complete : ∀ (b : B) (dt : DataType) (n : Bool) (md : Metadata) (lv : LVal), WFB b → Shape b dt n md →
-    total dt n md = true → interpNull dt n md = .ok lv → ∃ b', pushNone b = .ok b' ∧ room b' = room b
-  | .null p len, _, _, _, _, _, _, _, _ => ⟨_, rfl, rfl⟩
-  | .unknownVariant p, dt, n, md, lv, _, hs, _, hi => by
+    total dt n md = true → interpNull dt n md = .ok lv → 1 ≤ room b → ∃ b', pushNone b = .ok b' ∧ room b ≤ room b' + 1
+  | .null p len, _, _, _, _, _, _, _, _, _ => ⟨_, rfl, room_le1 rfl⟩
+  | .unknownVariant p, dt, n, md, lv, _, hs, _, hi, hk => by
     simp only [Shape] at hs
     obtain ⟨rfl, hu⟩ := hs
     simp [interpNull, hu, fail] at hi
-  | .leaf p k v vals, dt, n, md, lv, _, hs, _, hi => by
+  | .leaf p k v vals, dt, n, md, lv, _, hs, _, hi, hk => by
     simp only [Shape] at hs
     have hn := interpNull_nullable hi (kindOf_ne_null hs.1)
     obtain ⟨v', hv⟩ := setValidity_false_total (hs.2.trans hn) vals.length
-    refine ⟨.leaf p k v' (vals ++ [0]), ?_, rfl⟩
+    refine ⟨.leaf p k v' (vals ++ [0]), ?_, room_le1 rfl⟩
     simp only [pushNone, ctx_ok]
     exact (bind_ok _ _ _).2 ⟨_, hv, rfl⟩
-  | .bytes p ty v offs data, dt, n, md, lv, hwf, hs, _, hi => by
+  | .bytes p ty v offs data, dt, n, md, lv, hwf, hs, _, hi, hk => by
     simp only [Shape] at hs
     simp only [WFB] at hwf
     have hn := interpNull_nullable hi (hs.1 ▸ bytesDT_ne_null ty)
     obtain ⟨v', hv⟩ := setValidity_false_total (hs.2.trans hn) (offs.length - 1)
-    refine ⟨.bytes p ty v' (offs ++ [(data.length : Int)]) data, ?_, by simp only [room, lastNat_snoc, lastNat_of_getLast hwf.1.2.1]⟩
+    refine ⟨.bytes p ty v' (offs ++ [(data.length : Int)]) data, ?_, room_le1 (by simp only [room, lastNat_snoc, lastNat_of_getLast hwf.1.2.1])⟩
     simp only [pushNone, ctx_ok]
     exact (bind_ok _ _ _).2 ⟨_, hv, (bind_ok _ _ _).2 ⟨_, duplicateLast_total hwf.1.2.1, rfl⟩⟩
-  | .bytesView p ty v views buf, dt, n, md, lv, _, hs, _, hi => by
+  | .bytesView p ty v views buf, dt, n, md, lv, _, hs, _, hi, hk => by
     simp only [Shape] at hs
     have hn := interpNull_nullable hi (hs.1 ▸ viewDT_ne_null ty)
     obtain ⟨v', hv⟩ := setValidity_false_total (hs.2.trans hn) views.length
-    refine ⟨.bytesView p ty v' (views ++ [packInline []]) buf, ?_, rfl⟩
+    refine ⟨.bytesView p ty v' (views ++ [packInline []]) buf, ?_, room_le1 rfl⟩
     simp only [pushNone, ctx_ok]
     exact (bind_ok _ _ _).2 ⟨_, hv, rfl⟩
-  | .fixedSizeBinary p m len v buf cur, dt, n, md, lv, _, hs, _, hi => by
+  | .fixedSizeBinary p m len v buf cur, dt, n, md, lv, _, hs, _, hi, hk => by
     simp only [Shape] at hs
     have hn := interpNull_nullable hi (by rw [hs.1]; simp)
     obtain ⟨v', hv⟩ := setValidity_false_total (hs.2.trans hn) len
-    refine ⟨.fixedSizeBinary p m (len + 1) v' (buf ++ List.replicate m 0) cur, ?_, rfl⟩
+    refine ⟨.fixedSizeBinary p m (len + 1) v' (buf ++ List.replicate m 0) cur, ?_, room_le1 rfl⟩
     simp only [pushNone, ctx_ok]
     exact (bind_ok _ _ _).2 ⟨_, hv, rfl⟩
-  | .list p large fm v offs el, dt, n, md, lv, hwf, hs, _, hi => by
+  | .list p large fm v offs el, dt, n, md, lv, hwf, hs, _, hi, hk => by
     simp only [Shape] at hs
     simp only [WFB] at hwf
     obtain ⟨hv0, cname, cdt, cn, cmd, rfl, _⟩ := hs
     have hn := interpNull_nullable hi (by cases large <;> simp)
     obtain ⟨v', hv⟩ := setValidity_false_total (hv0.trans hn) (offs.length - 1)
-    refine ⟨.list p large fm v' (offs ++ [((dec el).length : Int)]) el, ?_, by simp only [room, lastNat_snoc, lastNat_of_getLast hwf.1.2.1]⟩
+    refine ⟨.list p large fm v' (offs ++ [((dec el).length : Int)]) el, ?_, room_le1 (by simp only [room, lastNat_snoc, lastNat_of_getLast hwf.1.2.1])⟩
     simp only [pushNone, ctx_ok]
     exact (bind_ok _ _ _).2 ⟨_, hv, (bind_ok _ _ _).2 ⟨_, duplicateLast_total hwf.1.2.1, rfl⟩⟩
-  | .fixedSizeList p fm m len v cur el, dt, n, md, lv, hwf, hs, ht, hi => by
+  | .fixedSizeList p fm m len v cur el, dt, n, md, lv, hwf, hs, ht, hi, hk => by
     simp only [Shape] at hs
     simp only [WFB] at hwf
     obtain ⟨hv0, cname, cdt, cn, cmd, rfl, hsel⟩ := hs
     have hn := interpNull_nullable hi (by simp)
     subst hn
     obtain ⟨v', hv⟩ := setValidity_false_total hv0 len
-    simp only [total, totalF, defOKF, Bool.and_eq_true, Bool.not_true, Bool.false_or] at ht
-    obtain ⟨el', hel, hr⟩ := pushDefaultK_total el m cdt cn cmd hwf.2.2 hsel ht.2
-    refine ⟨.fixedSizeList p fm m (len + 1) v' cur el', ?_, by simp only [room, hr]⟩
+    simp only [total, totalF, defOKF, noDefUF, Bool.and_eq_true, Bool.not_true, Bool.false_or, Bool.or_eq_true,
+      decide_eq_true_eq] at ht
+    simp only [room] at hk
+    have hm : noDefU cdt = false → m ≤ room el := by
+      intro hnd
+      rcases ht.2.2 with h' | h'
+      · omega
+      · rw [hnd] at h'; cases h'
+    obtain ⟨el', hel, hr1, hr2⟩ := pushDefaultK_total el m cdt cn cmd hwf.2.2 hsel ht.2.1 hm
+    have hr : room el ≤ room el' + 1 := by
+      cases hnd : noDefU cdt with
+      | true => rw [hr2 hnd]; omega
+      | false =>
+        rcases ht.2.2 with h' | h'
+        · omega
+        · rw [hnd] at h'; cases h'
+    refine ⟨.fixedSizeList p fm m (len + 1) v' cur el', ?_, by simp only [room]; exact hr⟩
     simp only [pushNone, ctx_ok]
     exact (bind_ok _ _ _).2 ⟨_, hv, (bind_ok _ _ _).2 ⟨_, hel, rfl⟩⟩
-  | .map p mm v offs ks vs, dt, n, md, lv, hwf, hs, _, hi => by
+  | .map p mm v offs ks vs, dt, n, md, lv, hwf, hs, _, hi, hk => by
     simp only [Shape] at hs
     simp only [WFB] at hwf
     obtain ⟨hv0, ename, kn, kdt, knl, kmd, vn, vdt, vnl, vmd, rest, en, emd, sorted, rfl, _, _⟩ := hs
     have hn := interpNull_nullable hi (by simp)
     obtain ⟨v', hv⟩ := setValidity_false_total (hv0.trans hn) (offs.length - 1)
-    refine ⟨.map p mm v' (offs ++ [((dec ks).length : Int)]) ks vs, ?_, by simp only [room, lastNat_snoc, lastNat_of_getLast hwf.1.2.1]⟩
+    refine ⟨.map p mm v' (offs ++ [((dec ks).length : Int)]) ks vs, ?_, room_le1 (by simp only [room, lastNat_snoc, lastNat_of_getLast hwf.1.2.1])⟩
     simp only [pushNone, ctx_ok]
     exact (bind_ok _ _ _).2 ⟨_, hv, (bind_ok _ _ _).2 ⟨_, duplicateLast_total hwf.1.2.1, rfl⟩⟩
-  | .struct p len v fs cached next seen, dt, n, md, lv, hwf, hs, ht, hi => by
+  | .struct p len v fs cached next seen, dt, n, md, lv, hwf, hs, ht, hi, hk => by
     simp only [Shape] at hs
     simp only [WFB] at hwf
     obtain ⟨hv0, sfs, rfl, hsl⟩ := hs
@@ -335,25 +408,26 @@ theorem pushNone_complete : ∀ (b : B) (dt : DataType) (n : Bool) (md : Metadat
     subst hn
     obtain ⟨v', hv⟩ := setValidity_false_total hv0 len
     simp only [total, Bool.and_eq_true, Bool.not_true, Bool.false_or] at ht
-    obtain ⟨fs', hfs, hr⟩ := pushDefaultKAll_total fs 1 sfs len hwf.2.1 hsl ht.2
-    refine ⟨.struct p (len + 1) v' fs' cached next seen, ?_, by simp only [room, hr]⟩
+    simp only [room] at hk
+    obtain ⟨fs', hfs, hr, _⟩ := pushDefaultKAll_total fs 1 sfs len hwf.2.1 hsl ht.2 (fun _ => hk)
+    refine ⟨.struct p (len + 1) v' fs' cached next seen, ?_, by simp only [room]; exact hr⟩
     simp only [pushNone, ctx_ok]
     exact (bind_ok _ _ _).2 ⟨_, hv, (bind_ok _ _ _).2 ⟨_, hfs, rfl⟩⟩
-  | .dictionary p idx vals index, dt, n, md, lv, _, hs, _, hi => by
+  | .dictionary p idx vals index, dt, n, md, lv, _, hs, _, hi, hk => by
     simp only [Shape] at hs
     obtain ⟨⟨kdt, vdt, rfl, hsv⟩, hil, hnl, _⟩ := hs
     have hn := interpNull_nullable hi (by simp)
     obtain ⟨p', t, v, vals', rfl⟩ := isIntLeaf_form hil
     simp only [B.isNullable] at hnl
     obtain ⟨v', hv⟩ := setValidity_false_total (hnl.trans hn) vals'.length
-    refine ⟨.dictionary p (.leaf p' (.int t) v' (vals' ++ [0])) vals index, ?_, by simp only [room, keyRoom]⟩
+    refine ⟨.dictionary p (.leaf p' (.int t) v' (vals' ++ [0])) vals index, ?_, room_le1 (by simp only [room, keyRoom])⟩
     rw [pushNone]
     simp only [ctx_ok]
     rw [if_neg (by simp only [B.isNullable, hnl.trans hn]; decide)]
     refine (bind_ok _ _ _).2 ⟨_, ?_, rfl⟩
     simp only [pushNone, ctx_ok]
     exact (bind_ok _ _ _).2 ⟨_, hv, rfl⟩
-  | .union p fs types offs cur, dt, n, md, lv, _, hs, _, hi => by
+  | .union p fs types offs cur, dt, n, md, lv, _, hs, _, hi, hk => by
     simp only [Shape] at hs
     obtain ⟨ufs, mode, rfl, _⟩ := hs
     simp [interpNull, isUnknownVariant, fail] at hi
